@@ -28,6 +28,9 @@ import (
 type EngCase struct {
 	RelativeDir bool   `json:"relative_dir"` // pass the context directory as a relative path
 	ChdirTo     string `json:"chdir_to"`     // "" | "parent" | "elsewhere": working directory during the run
+	// MoveAfterCache changes the working directory between building the file cache and parsing / running:
+	// what the cache was built from must not be looked up again relative to the new place.
+	MoveAfterCache bool `json:"move_after_cache,omitempty"`
 	MissingFile string `json:"missing_file,omitempty"`
 	Unreadable  string `json:"unreadable,omitempty"`
 	// results
@@ -98,11 +101,17 @@ func (ec *EngCase) body(c *Case) func(b *harness.BodyCtx) {
 			Log:            log.Config{Level: log.LevelError, Destination: log.DestinationStdout, Stdout: io.Discard},
 		}
 		input, _ := json.Marshal(c.Doc)
+		startDir, _ := os.Getwd()
+		_ = os.MkdirAll(filepath.Join(root, "moved", "ctx"), 0o755)
 		for _, how := range []string{"RunWorkflow", "Parse+Run"} {
 			r := engRun{how: how}
+			_ = os.Chdir(startDir)
 			fc, err := loadfile.NewFileCacheUsingContext(ctxArg, map[string]string{"workflow": "workflow.yaml"})
 			if err == nil {
 				err = fc.LoadContext()
+			}
+			if ec.MoveAfterCache {
+				_ = os.Chdir(filepath.Join(root, "moved"))
 			}
 			if err != nil {
 				r.err = "file cache: " + err.Error()
@@ -203,6 +212,7 @@ func genEngCase(t *rapid.T) *Case {
 	c.Policy = GenPolicy(t, rapid.Bool().Draw(t, "adv"))
 	c.MapMode, c.MapSeed = GenMapOrder(t)
 	ec := &EngCase{RelativeDir: rapid.Bool().Draw(t, "relative_dir"), ChdirTo: rapid.SampledFrom([]string{"", "parent", "elsewhere"}).Draw(t, "chdir")}
+	ec.MoveAfterCache = rapid.IntRange(0, 2).Draw(t, "move_after_cache") == 0
 	names := ref.SortedKeys(prog.Files())
 	if len(names) > 0 && rapid.IntRange(0, 5).Draw(t, "file_fault") == 0 {
 		n := names[rapid.IntRange(0, len(names)-1).Draw(t, "fault_file")]
@@ -227,6 +237,11 @@ func engCheck(c *Case, r *harness.Result) []Violation {
 	ec := c.Eng
 	var out []Violation
 	if len(ec.runs) < 3 {
+		return nil
+	}
+	if anyGiveUpWithHeldUpGoroutine(r) {
+		// one of the runs was ended by the fallback detector because a goroutine was held up (C09's
+		// finding): the three results are then not comparable
 		return nil
 	}
 	doc, derr := c.NormDoc()
